@@ -17,7 +17,7 @@ RULE = (
 )
 ASSUMPTIONS = ['virtual time; CPU-time dependent races (real duration of 1000 zero-sleeps) are not explored', 'event_timeout=None so the "unless cancelled by its timeout" clause is not in play']
 
-P = Profile(deep_wild=True, hist=[None, None, 50, 2, 3, 5], raises=0.1, actor_ops=['disp', 'disp', 'burst', 'dispany', 'sleep', 'await', 'yield'], maxdepth=[2, 3], wild=0.15, fwd=0.3, min_buses=1, max_buses=3, modes=['await', 'await', 'later', 'later', 'ff'], ops=['sleep', 'yield', 'yield', 'disp', 'disp', 'disp', 'awaitall', 'awaitall'], par=0.15)
+P = Profile(shadow=0.1, deep_wild=True, hist=[None, None, 50, 2, 3, 5], raises=0.1, actor_ops=['disp', 'disp', 'burst', 'dispany', 'sleep', 'await', 'yield'], maxdepth=[2, 3], wild=0.15, fwd=0.3, min_buses=1, max_buses=3, modes=['await', 'await', 'later', 'later', 'ff'], ops=['sleep', 'yield', 'yield', 'disp', 'disp', 'disp', 'awaitall', 'awaitall'], par=0.15)
 
 
 def budget(tier):
